@@ -788,6 +788,16 @@ class Engine:
                 return self.merge_region(arms, env, run_plain)
             raise PathEnd()
         mergeable = self._mergeable(snap, normals)
+        if not mergeable and tok == 'N':
+            # the prefix was recorded when this region merged; meanwhile an inner statement was excluded from merging
+            # (no_merge_nodes grows during a unit) and the arms no longer merge.  The rest of the recorded prefix is
+            # meaningless then: explore everything below this point afresh (a superset of the path that was asked for;
+            # paths already seen through sibling prefixes are explored twice, none is lost).
+            self.stats['merge_restarts'] = self.stats.get('merge_restarts', 0) + 1
+            self.prefix = self.prefix[:self.pos]
+            tok = None
+            for (ai, inner) in excs:
+                self.pending.append(self.prefix[:self.pos] + [('X', ai, inner)])
         if not mergeable:
             self.stats['merge_fallbacks'] += 1
             if tok is None and getattr(self, '_merge_node', None) is not None:
